@@ -5,8 +5,8 @@ import time
 from vf import Inconclusive, parallel, require_clean, validate_traces, vfj_lines, b2s
 
 CLAIM = {
-    "text": "ExprScalar.tla transcribes the documented semantics of 60 scalar expression helpers (integer/float arithmetic, floor/ceil/round, comparison and logic, string helpers, bucket/bucketrange/clamp/expbucket, csv with an RFC 4180 decoder (Csv.tla), hi/hf/percent/bytesize/bytesizesi/downscale, lookup/haskey, path helpers, format) with explicit domains; TLC proves the property's laws on that model over ranges (bucket is the multiple b of s with b<=v<b+s, clamp returns v iff min<=v<=max, Decode(csv(args))=args for every CSV special character, hi only inserts separators at every third digit, truncating divi/modi, order laws of lt..gte, rounding within half a unit, ...); TLC enumerates exhaustive small argument ranges per helper and arity with the expected result, the real compiler evaluates each call with every argument both as a template constant and as a match group (optimised and unoptimised), on a fresh compiled expression and again as evaluation histories (one compiled expression evaluated over sequences of contexts that differ in one dynamic argument at a time, with revisits and error values, and from 2-4 goroutines), so a compiled expression is checked to be a function of its current context. ExprScalarHist.tla models the compiled call as an object with a life - instances (their template constants), contexts, evaluations that Begin, Read their dynamic arguments one context read at a time and Finish, interleaved serially, nested with stack discipline (re-entrant use on one goroutine, as a funcs-file function used inside its own argument) or freely (worker goroutines) - with the law Isolated: every finished evaluation holds Expect(f, its own arguments); TLC proves it for the designs 'nothing carried between evaluations' and 'memo keyed on all dynamic arguments' under every schedule and refutes the negative controls (memo keyed on the first dynamic argument, memo shared by instances with different constants, sticky error: by serial histories; argument slots owned by the instance: passes every serial history, refuted by two overlapping or nested evaluations). TLC enumerates the behaviours of that machine as evaluation shapes (which instance on which context, order of advance from context read to context read); the driver realises every shape on pools of 2 compiled instances x 3 contexts drawn from the TLC vectors of every helper, arity and position pattern - serially, with every evaluation in a goroutine whose context reads wait for their grant (deterministic interleavings), and nested on one goroutine from inside a pending context read - and compares each evaluation with TLC's expectation for its own arguments; every distinct recorded observation (incl. seeded random shapes), plus seeded random histories with values up to +-10^9, is validated by TLC against the specification.",
-    "note": "Bounded: TLC integers are 32 bit, so values beyond 9 digits, int64/float64 boundaries, binary rounding ties, exponent/hex/inf/nan spellings, non-ASCII case mapping and log10/log2/ln are outside the specified domain (only 'returns'). Whitespace-only arguments of and/or/not are outside the domain (the docs contradict themselves). Evaluations can be suspended only at their context reads (state that is shared between the last read and the return is visible only to the free-running goroutine runs, which are timing dependent); a helper that holds a lock across its argument reads would stall the gated realisation (reported as inconclusive, not as a violation); shapes have at most 3 evaluations, 2 instances, 3 contexts. Trusted: TLC, the Go runtime, the template encoding of constants (checked with a transparent function).",
+    "text": "ExprScalar.tla transcribes the documented semantics of 60 scalar expression helpers (integer/float arithmetic, floor/ceil/round, comparison and logic, string helpers, bucket/bucketrange/clamp/expbucket, csv with an RFC 4180 decoder (Csv.tla), hi/hf/percent/bytesize/bytesizesi/downscale, lookup/haskey, path helpers, format) with explicit domains; TLC proves the property's laws on that model over ranges (bucket is the multiple b of s with b<=v<b+s, clamp returns v iff min<=v<=max, Decode(csv(args))=args for every CSV special character, hi only inserts separators at every third digit, truncating divi/modi, order laws of lt..gte, rounding within half a unit, ...). Text is UTF-8 (ExprScalarText.tla: decoder/encoder, the Unicode property White_Space, a set of certainly visible characters): 'False is an empty value (or only whitespace)' holds for every White_Space code point (no-break space, next line, U+1680, U+2000-U+200A, line/paragraph separator, U+202F, U+205F, ideographic space), alone or mixed with the ASCII blanks, for if/unless/switch. floor/ceil/round are defined beyond the 9-digit model by exact digit-sequence arithmetic (ExprScalarBig.tla) on every decimal that binary64 holds exactly (2^63, 10^19, 10^22, 2^52-0.5, ...), a rounding tie is either neighbour, scientific notation is the plain decimal or the error marker, an infinity/NaN never yields a numeral; ExprScalarImpl_MC.tla checks implementation-shaped designs against that (the code's: rune-wise TrimSpace, exact formatting of the float with ties to even or away) and refutes the negative controls (byte loops that know only the ASCII or Latin-1 blanks; conversion of the rounded float through int64, with and without a guard for non-finite values). TLC enumerates exhaustive small argument ranges per helper and arity with the expected result, the real compiler evaluates each call with every argument both as a template constant and as a match group (optimised and unoptimised), on a fresh compiled expression and again as evaluation histories (one compiled expression evaluated over sequences of contexts that differ in one dynamic argument at a time, with revisits and error values, and from 2-4 goroutines), so a compiled expression is checked to be a function of its current context. ExprScalarHist.tla models the compiled call as an object with a life - instances (their template constants), contexts, evaluations that Begin, Read their dynamic arguments one context read at a time and Finish, interleaved serially, nested with stack discipline (re-entrant use on one goroutine, as a funcs-file function used inside its own argument) or freely (worker goroutines) - with the law Isolated: every finished evaluation holds Expect(f, its own arguments); TLC proves it for the designs 'nothing carried between evaluations' and 'memo keyed on all dynamic arguments' under every schedule and refutes the negative controls (memo keyed on the first dynamic argument, memo shared by instances with different constants, sticky error: by serial histories; argument slots owned by the instance: passes every serial history, refuted by two overlapping or nested evaluations). TLC enumerates the behaviours of that machine as evaluation shapes (which instance on which context, order of advance from context read to context read); the driver realises every shape on pools of 2 compiled instances x 3 contexts drawn from the TLC vectors of every helper, arity and position pattern - serially, with every evaluation in a goroutine whose context reads wait for their grant (deterministic interleavings), and nested on one goroutine from inside a pending context read - and compares each evaluation with TLC's expectation for its own arguments; every distinct recorded observation (incl. seeded random shapes), plus seeded random histories with values up to +-10^9, is validated by TLC against the specification.",
+    "note": "Bounded: TLC integers are 32 bit, so outside floor/ceil/round values beyond 9 digits and int64 boundaries are outside the specified domain (only 'returns'), as are decimals binary64 cannot hold exactly when longer than 9 significant digits, hex spellings, non-ASCII case mapping and log10/log2/ln; which neighbour a rounding tie goes to and the sign of a zero result are not documented (both accepted / not demanded). Values made of characters that are neither White_Space nor certainly visible (controls, format characters, zero width space, U+180E) and ill-formed UTF-8 have no specified truthiness. Whitespace-only arguments of and/or/not are outside the domain (the docs contradict themselves). Evaluations can be suspended only at their context reads (state that is shared between the last read and the return is visible only to the free-running goroutine runs, which are timing dependent); a helper that holds a lock across its argument reads would stall the gated realisation (reported as inconclusive, not as a violation); shapes have at most 3 evaluations, 2 instances, 3 contexts. Trusted: TLC, the Go runtime, the template encoding of constants (checked with a transparent function).",
     "technique": "TLA+ functional specification model-checked with TLC (laws over ranges) + TLA+ state machine of evaluation histories / interleavings with negative controls + model-generated vectors and behaviours (shapes) replayed on the real code with gated contexts + TLC validation of recorded evaluations",
 }
 
@@ -23,6 +23,11 @@ def _text(a):
 def _hist_cfg(design, sched, maxev, pool):
     return ("SPECIFICATION Spec\nCONSTANTS Scenarios <- MCScenarios\n MaxEvals = %d\n Design = \"%s\"\n Sched = \"%s\"\n"
             " Pool = \"%s\"\nINVARIANTS TypeOK Isolated\nCHECK_DEADLOCK FALSE\n" % (maxev, design, sched, pool))
+
+
+def _impl_cfg(truth, num, grps, thorough):
+    return ("INIT Init\nNEXT Next\nCONSTANTS Thorough = %s\n TruthDesign = \"%s\"\n NumDesign = \"%s\"\n Grps = {%s}\nINVARIANTS Conforms\nCHECK_DEADLOCK FALSE\n"
+            % ("TRUE" if thorough else "FALSE", truth, num, ", ".join('"%s"' % g for g in grps)))
 
 
 def _shape_cfg(sched, maxev, ks):
@@ -44,7 +49,10 @@ def _check(run):
     quick = run.tier == "quick"
     run.assumptions += [
         "domains (ExprScalar.tla): integers of at most 9 digits and guarded intermediate results; finite decimals of at most 9 significant digits; "
-        "rounding ties, negative zero, exponent/hex/inf/nan spellings, non-ASCII case mapping, log10/log2/ln, fmt verbs other than %s %v %d %% %Ns %-Ns: only 'returns'",
+        "negative zero, hex spellings, non-ASCII case mapping, log10/log2/ln, fmt verbs other than %s %v %d %% %Ns %-Ns: only 'returns'; "
+        "floor/ceil/round additionally on decimals of up to 40+20 digits that binary64 holds exactly (the value ParseFloat must return is then the decimal itself: strconv is documented as correctly rounded), "
+        "a rounding tie may go to either neighbour, scientific notation (exponent of at most 2 digits) is the plain decimal or <BAD-TYPE>, inf/nan spellings must not yield a decimal numeral",
+        "values are UTF-8 text: whitespace = Unicode White_Space (25 code points); ill-formed UTF-8 and values of blanks plus unclassified characters (controls, format characters, zero width space, ...) have no specified truthiness",
         "whitespace-only arguments of and/or/not, negative substr positions, select on values with quotes or leading/trailing blanks, "
         "dirname without a directory part, duplicate keys in lookup tables: undocumented, outside the domain",
         "documented compile-time arguments supplied from the match context must yield an error marker (any documented marker)",
@@ -68,9 +76,32 @@ def _check(run):
         finally:
             b3_done.set()
         require_clean(run, r, "ExprScalar_MC (laws)")
-        if r.distinct < 100000:
+        if r.distinct < 200000:
             raise Inconclusive("law check explored only %d cases" % r.distinct)
         return r
+
+    # ---- implementation-shaped designs of truthiness (if/unless/switch/not) and of float -> numeral (floor/ceil/round) against the
+    # documented semantics: the code's designs conform, the negative controls (ASCII-only / Latin-1 byte loops; conversion through
+    # int64) are refuted
+    def impl():
+        def passes(truth, num, grps):
+            r = run.tlc("ExprScalarImpl_MC", _impl_cfg(truth, num, grps, not quick), workers=1, timeout=3000,
+                        label="ExprScalarImpl %s / %s conforms (%s)" % (truth, num, "+".join(grps)))
+            require_clean(run, r, "ExprScalarImpl %s/%s" % (truth, num))
+            if r.distinct < 2500:
+                raise Inconclusive("ExprScalarImpl %s/%s explored only %d cases" % (truth, num, r.distinct))
+
+        def refuted(truth, num, grps):
+            r = run.tlc("ExprScalarImpl_MC", _impl_cfg(truth, num, grps, not quick), workers=1, timeout=3000,
+                        label="ExprScalarImpl %s / %s (negative control: Conforms must be refuted)" % (truth, num))
+            if list(r.violated) != ["Conforms"]:
+                raise Inconclusive("negative control %s/%s was not refuted as expected (violated=%s)\n%s" % (
+                    truth, num, r.violated, r.out[-2000:]))
+
+        jobs = [lambda: passes("trimspace", "format", ["cond", "num"]), lambda: passes("trimspace", "away", ["num"]),
+                lambda: refuted("ascii_bytes", "format", ["cond"]), lambda: refuted("latin1_bytes", "format", ["cond"]),
+                lambda: refuted("trimspace", "int64", ["num"]), lambda: refuted("trimspace", "int64_finite", ["num"])]
+        parallel(jobs, 2)
 
     # ---- history layer (ExprScalarHist): shapes for B1, then the law and the negative controls (B3)
     shapes_path = os.path.join(run.scratch, "c11-shapes.ndjson")
@@ -139,8 +170,17 @@ def _check(run):
             for v in vfj_lines(r.out):
                 f.write(json.dumps(v, separators=(",", ":")) + "\n")
                 n += 1
-        if n < 15000:
+        if n < 20000:
             raise Inconclusive("generator produced only %d vectors" % n)
+        newg = {}
+        with open(vec_path) as f:
+            for ln in f:
+                v = json.loads(ln)
+                if v["g"] in ("condws", "bignum") and v["exp"]["k"] != "any":
+                    newg[v["g"]] = newg.get(v["g"], 0) + 1
+        if newg.get("condws", 0) < 1000 or newg.get("bignum", 0) < 1500:
+            raise Inconclusive("too few demanding Unicode-whitespace / big-number vectors: %s" % newg)
+        run.cov["b1_vectors_unicode_whitespace_and_big_numbers"] = newg
         shapes_ready.wait()
         if "n" not in shapes_info:
             raise Inconclusive("no evaluation shapes")
@@ -176,7 +216,7 @@ def _check(run):
 
         return chunks, parallel([lambda i=i, p=p: val(i, p) for i, p, _ in chunks], k)
 
-    _, (chunks, results), _ = parallel([b3, b12, hist], 3)
+    _, (chunks, results), _, _ = parallel([b3, b12, hist, impl], 4)
     res = json.load(open(res_path))
     run.cov["b1_vectors"] = res["vectors"]
     run.cov["b1_evaluations"] = res["runs"]
